@@ -98,9 +98,20 @@ LegalProgram(ver, n) == /\ ver \in 0..16
 
 ConstFor(ver) == IF ver = 0 THEN Bech32Const ELSE Bech32mConst
 
-\* [ok, str]
+\* a prefix an address can carry: 1..83 printable characters, no upper case
+\* (an upper-case prefix would make the emitted string mixed-case)
+LegalHrp(hrp) == /\ Len(hrp) >= 1
+                 /\ \A i \in 1..Len(hrp) : hrp[i] >= 33 /\ hrp[i] <= 126 /\ Lower(hrp[i]) = hrp[i]
+
+\* symbols needed for n program bytes
+SymLen(n) == (8 * n + 4) \div 5
+
+\* [ok, str]: no address for an illegal version/length combination, an
+\* illegal prefix, or a string that would exceed 90 characters
 AddrEncode(hrp, ver, prog) ==
-  IF ~LegalProgram(ver, Len(prog)) THEN [ok |-> FALSE, str |-> <<>>]
+  IF ~LegalProgram(ver, Len(prog)) \/ ~LegalHrp(hrp)
+     \/ Len(hrp) + 1 + 1 + SymLen(Len(prog)) + 6 > 90
+  THEN [ok |-> FALSE, str |-> <<>>]
   ELSE [ok |-> TRUE,
         str |-> EncodeStr(hrp, <<ver>> \o ConvertBits(prog, 8, 5, TRUE).out, ConstFor(ver))]
 
